@@ -27,7 +27,7 @@ INFO = {
                    "name in any scope of the package; the emitted callee name, the recorded keys and the operand "
                    "expressions of a recorded call come from one cache lookup in operand order. Not decided: str() "
                    "formatting of exotic numeric literals.",
-    "decided": ["C05.dual-table", "C11.registry-complete", "C11.dunder-agreement", "C11.python-siblings", "C11.coefficient-kind",
+    "decided": ["C05.dual-table", "C11.grade", "C11.registry-complete", "C11.dunder-agreement", "C11.python-siblings", "C11.coefficient-kind",
                 "C11.names", "C11.emission-pairing"],
     "not_decided": ["formatting of non-literal numeric operands via str() inside emitted source (value dependent)",
                     "by-name resolution at call time relies on C09.name-injective"],
@@ -421,6 +421,81 @@ def check_coefficient_kind(ctx, repo, qual):
 def coefficient_kind(ctx):
     """A coefficient read inside a registered function is a scalar with the spelling's parity sign (DT)."""
     check_coefficient_kind(ctx, ctx.repo, f"{TR}.__getattr__")
+
+
+# --------------------------------------------------------------------------- grade
+def _parse_grade_expr(expr: str):
+    """'[X[idx] for idx in (1, 3)]' -> [1, 3]; '[X[1], X[3]]' -> [1, 3]."""
+    try:
+        t = ast.parse(expr, mode="eval").body
+    except SyntaxError:
+        return None
+    if isinstance(t, ast.ListComp) and len(t.generators) == 1 and isinstance(t.elt, ast.Subscript) \
+            and isinstance(t.elt.value, ast.Name) and t.elt.value.id == "X" and un(t.elt.slice) == un(t.generators[0].target):
+        try:
+            it = ast.literal_eval(t.generators[0].iter)
+        except Exception:
+            return None
+        return list(it)
+    if isinstance(t, (ast.List, ast.Tuple)):
+        out = []
+        for e in t.elts:
+            if isinstance(e, ast.Subscript) and isinstance(e.value, ast.Name) and e.value.id == "X" and isinstance(e.slice, ast.Constant):
+                out.append(e.slice.value)
+            else:
+                return None
+        return out
+    return None
+
+
+@rule("C11.grade", props=["C11"], min_instances=4, mutants=[
+    ("keys in canonical order, indices in storage order", ("taperecorder", "        indices_keys = [(idx, k) for idx, k in enumerate(self.keys()) if k in basis_blades]\n        indices, keys = zip(*indices_keys) if indices_keys else (tuple(), tuple())",
+                                                            "        keys = tuple(k for k in basis_blades if k in self.keys())\n        indices = tuple(idx for idx, k in enumerate(self.keys()) if k in basis_blades)")),
+    ("grade selects the complement", ("taperecorder", "for idx, k in enumerate(self.keys()) if k in basis_blades]", "for idx, k in enumerate(self.keys()) if k not in basis_blades]")),
+])
+def grade(ctx):
+    """Recorded grade selection pairs every selected key with the position of that key in the recorder's own
+    storage order (same blades and coefficients as MultiVector.grade)."""
+    from ..symenv import rep_algebra
+    repo = ctx.repo
+    q = f"{TR}.grade"
+    fn = ctx.func(q)
+    keys = (6, 0, 3, 2, 5, 7)          # storage order e23, e, e12, e2, e13, e123
+    for grades in ((2,), (0, 2), (1, 3), ((2, 3),)):
+        c = f"{q}#{grades}"
+        alg = rep_algebra(3)
+        rec = Obj("TapeRecorder", {"algebra": alg, "expr": "X", "_keys": keys}, {"keys": lambda: keys})
+        it = make_interp(repo)
+        try:
+            out = it.run(q, [rec] + list(grades))
+        except NoValue as exc:
+            raise Unknown(c, str(exc), fn)
+        if out[0] == "raise":
+            ctx.ok(c, fn, outcome=f"raises {out[1]}")
+            continue
+        v = out[1]
+        if not (isinstance(v, Obj) and v.kind == "TapeRecorder" and isinstance(v.attrs.get("expr"), str)):
+            raise Unknown(c, f"grade returns {v!r}", fn)
+        idxs = _parse_grade_expr(v.attrs["expr"])
+        rkeys = v.attrs.get("_keys")
+        if idxs is None or rkeys is None:
+            raise Unknown(c, f"unrecognised recorded expression {v.attrs['expr']!r}", fn)
+        gset = grades[0] if isinstance(grades[0], tuple) else grades
+        want = {k for k in keys if bin(k).count("1") in gset}
+        got_pairs = list(zip(rkeys, idxs))
+        problems = []
+        if len(rkeys) != len(idxs):
+            problems.append(f"{len(rkeys)} keys for {len(idxs)} coefficients")
+        if set(rkeys) != want:
+            problems.append(f"selects blades {sorted(rkeys)}, MultiVector.grade selects {sorted(want)}")
+        wrong = [(k, i) for k, i in got_pairs if not (0 <= i < len(keys)) or keys[i] != k]
+        if wrong:
+            problems.append(f"key {wrong[0][0]} is paired with X[{wrong[0][1]}], which is the coefficient of blade "
+                            f"{keys[wrong[0][1]] if 0 <= wrong[0][1] < len(keys) else '?'}")
+        if problems:
+            ctx.violation(c, f"recorded grade{grades} of an argument stored as {keys}: " + "; ".join(problems), fn)
+        else:
+            ctx.ok(c, fn, pairs=got_pairs)
 
 
 # --------------------------------------------------------------------------- names
